@@ -326,6 +326,60 @@ def coverage_report(pid, hits):
 
 
 # ----------------------------------------------------------------------------------------
+# fingerprints of the anchored source: has the code the model transcribes changed since the model was validated?
+
+ANCHOR_DIR = VERIF / "anchors"
+
+
+def source_fingerprints(pid):
+    """{file: {qualname: sha1 of the AST of the function/class body}} for the files the property is anchored in"""
+    import ast
+    out = {}
+    for rel in anchored_files(pid):
+        path = REPO / rel
+        try:
+            tree = ast.parse(path.read_text())
+        except Exception as e:
+            out[rel] = {"<unreadable>": repr(e)}
+            continue
+        d = {}
+
+        def visit(node, prefix):
+            for ch in ast.iter_child_nodes(node):
+                if isinstance(ch, (ast.FunctionDef, ast.AsyncFunctionDef)):
+                    body = [b for b in ch.body if not (isinstance(b, ast.Expr) and isinstance(getattr(b, "value", None), ast.Constant)
+                                                       and isinstance(b.value.value, str))]   # ignore docstrings
+                    d[prefix + ch.name] = hashlib.sha1("".join(ast.dump(b) for b in body).encode()
+                                                       + ast.dump(ch.args).encode()).hexdigest()[:16]
+                    visit(ch, prefix + ch.name + ".")
+                elif isinstance(ch, ast.ClassDef):
+                    visit(ch, prefix + ch.name + ".")
+        visit(tree, "")
+        # module level statements other than defs/classes/docstrings
+        top = [b for b in tree.body if not isinstance(b, (ast.FunctionDef, ast.AsyncFunctionDef, ast.ClassDef))
+               and not (isinstance(b, ast.Expr) and isinstance(getattr(b, "value", None), ast.Constant))]
+        d["<module>"] = hashlib.sha1("".join(ast.dump(b) for b in top).encode()).hexdigest()[:16]
+        out[rel] = d
+    return out
+
+
+def changed_anchors(pid):
+    """qualified names whose code differs from the committed baseline anchors/<pid>.json (None: no baseline)"""
+    f = ANCHOR_DIR / f"{pid}.json"
+    if not f.exists():
+        return None
+    base = json.loads(f.read_text())
+    cur = source_fingerprints(pid)
+    ch = []
+    for rel in sorted(set(base) | set(cur)):
+        b, c = base.get(rel, {}), cur.get(rel, {})
+        for q in sorted(set(b) | set(c)):
+            if b.get(q) != c.get(q):
+                ch.append(f"{rel}:{q}")
+    return ch
+
+
+# ----------------------------------------------------------------------------------------
 # check context
 
 class Ctx:
@@ -560,6 +614,25 @@ def run_check(modname, argv=None):
     gen = mod.gen_cases(ctx)
     cases.extend(gen)
     exhaustive_flag = bool(getattr(ctx, "exhaustive", False))
+    # the code the model transcribes differs from what the model was validated against: the hand-written model may
+    # be stale, so the quick tier widens its correspondence/oracle run with a sample of the thorough generator
+    changed = changed_anchors(pid)
+    n_escalated = 0
+    if changed and tier == "quick" and not os.environ.get("VERIF_NO_ESCALATION"):
+        import itertools
+        t_gen = time.time()
+        extra = []
+        for c in mod.gen_cases(Ctx(pid, "thorough", seed)):
+            extra.append(c)
+            if len(extra) >= 150000 or time.time() - t_gen > 60:
+                break
+        k = int(os.environ.get("VERIF_ESCALATION_CASES", "30000"))
+        if len(extra) > k:
+            extra = random.Random(f"{pid}:escalate:{seed}").sample(extra, k)
+        n_escalated = len(extra)
+        cases.extend(extra)
+        notes.append(f"anchored source changed since the model was validated ({len(changed)} definitions, e.g. {changed[:4]}): "
+                     f"{n_escalated} cases of the thorough generator added to this quick run")
 
     results = evaluate(modname, cases, jobs, case_timeout)
 
@@ -697,6 +770,8 @@ def run_check(modname, argv=None):
             "proof_problems": proof_problems,
             "leanchecker": leanchecker,
             "impl_line_coverage": coverage_report(pid, COVERAGE_HITS),
+            "anchored_source_changed": changed,
+            "escalated_cases": n_escalated,
             "notes": notes + list(getattr(ctx, "notes", [])),
         },
         "assumptions": list(getattr(mod, "ASSUMPTIONS", [])),
